@@ -1256,8 +1256,21 @@ impl<Sink: TokenSink> Tokenizer<Sink> {
             // Use peek so we can handle the first attr character along with the rest,
             // hopefully in the same zero-copy buffer.
             states::BeforeAttributeValue => loop {
-                match peek!(self, input) {
-                    '\t' | '\n' | '\r' | '\x0C' | ' ' => go!(self: discard_char input),
+                let c = peek!(self, input);
+                if self.ignore_lf.get() {
+                    // The LF of a CRLF pair was already counted with its CR.
+                    self.ignore_lf.set(false);
+                    if c == '\n' {
+                        go!(self: discard_char input);
+                        continue;
+                    }
+                }
+                match c {
+                    // Consume line breaks through get_char so that they are counted.
+                    '\n' | '\r' => {
+                        get_char!(self, input);
+                    },
+                    '\t' | '\x0C' | ' ' => go!(self: discard_char input),
                     '"' => go!(self: discard_char input; to State::AttributeValue(DoubleQuoted)),
                     '\'' => go!(self: discard_char input; to State::AttributeValue(SingleQuoted)),
                     '>' => {
